@@ -10,4 +10,6 @@ for f in spec/*.tla; do
 done
 echo "SANY: all modules parse"
 /venv/bin/python -c "import sys; sys.path.insert(0,'/verif/harness/numba_shim'); sys.path.insert(0,'/repo'); import xgcm, xarray, dask; print('xgcm from', xgcm.__file__)"
+# self-check of the numba stand-in: upstream's transform tests (those needing `distributed` are deselected)
+(cd /repo && PYTHONPATH=/repo:/verif/harness/numba_shim /venv/bin/python -m pytest -q -p no:cacheprovider -x xgcm/test/test_transform.py -k "not distributed" 2>&1 | tail -1)
 echo setup ok
